@@ -15,6 +15,10 @@
 (*                else a search is launched on a FORK of the board         *)
 (*   Halt         refused without a handle; else the handle is halted and  *)
 (*                dropped, and its last line returned                      *)
+(*   SetDepth / SetHash   change the options only: the depth takes effect   *)
+(*                at the next Analyze without an explicit limit, the hash  *)
+(*                size at the next successful Reset (a new table per game; *)
+(*                size 0 = no table)                                       *)
 (*                                                                         *)
 (* Parametric in the game exactly as Board.tla (model-checked over the     *)
 (* abstract game in MCEngine, instantiated with chess in TraceUciPos).     *)
@@ -29,16 +33,20 @@ CONSTANTS GLegal(_), GApply(_, _), GTurn(_), GResets(_, _), GIsCastle(_, _), GIn
 
 B == INSTANCE Board
 
-\* engine state: board, whether a handle is held, the line the held search was forked at,
-\* and the number of searches launched and never halted (a leak counter)
-NewEngine(bd) == [bd |-> bd, active |-> FALSE, root |-> <<>>, live |-> 0]
+\* engine state: board, whether a handle is held, the line the held search was forked at, the
+\* number of searches launched and never halted (a leak counter), the options, the size of the
+\* table in use and the number of tables made so far, and the limit the held search runs under
+NewEngine(bd, depth, hash) ==
+  [bd |-> bd, active |-> FALSE, root |-> <<>>, live |-> 0, depth |-> depth, hash |-> hash,
+   ttsize |-> hash, tables |-> IF hash > 0 THEN 1 ELSE 0, limit |-> 0]
 
 HaltIfActive(s) == IF s.active THEN [s EXCEPT !.active = FALSE, !.root = <<>>, !.live = @ - 1] ELSE s
 
 \* every call yields [s |-> next state, err |-> the call reports an error]
 Reset(s, decodes, bd) ==
   LET s1 == HaltIfActive(s) IN
-  IF decodes THEN [s |-> [s1 EXCEPT !.bd = bd], err |-> FALSE] ELSE [s |-> s1, err |-> TRUE]
+  IF decodes THEN [s |-> [s1 EXCEPT !.bd = bd, !.ttsize = s.hash, !.tables = IF s.hash > 0 THEN @ + 1 ELSE @], err |-> FALSE]
+  ELSE [s |-> s1, err |-> TRUE]
 
 Move(s, parses, m) ==
   IF ~parses THEN [s |-> s, err |-> TRUE]
@@ -51,9 +59,14 @@ TakeBack(s) ==
   IF B!CanPop(s1.bd) THEN [s |-> [s1 EXCEPT !.bd = B!PopOp(@)], err |-> FALSE]
   ELSE [s |-> s1, err |-> TRUE]
 
-Analyze(s) ==
+\* req: the requested depth limit (0 = explicitly none), or -1 if the caller names none
+Analyze(s, req) ==
   IF s.active THEN [s |-> s, err |-> TRUE]
-  ELSE [s |-> [s EXCEPT !.active = TRUE, !.root = s.bd.hist, !.live = @ + 1], err |-> FALSE]
+  ELSE [s |-> [s EXCEPT !.active = TRUE, !.root = s.bd.hist, !.live = @ + 1,
+                        !.limit = IF req >= 0 THEN req ELSE s.depth], err |-> FALSE]
+
+SetDepth(s, d) == [s |-> [s EXCEPT !.depth = d], err |-> FALSE]
+SetHash(s, h) == [s |-> [s EXCEPT !.hash = h], err |-> FALSE]
 
 Halt(s) ==
   IF ~s.active THEN [s |-> s, err |-> TRUE] ELSE [s |-> HaltIfActive(s), err |-> FALSE]
